@@ -15,7 +15,10 @@ use super::InterfaceDescription;
 #[serde(tag = "method", content = "parameters")]
 pub enum Method<'a> {
     /// Get information about the Varlink service.
-    #[serde(rename = "org.varlink.service.GetInfo")]
+    #[serde(
+        rename = "org.varlink.service.GetInfo",
+        deserialize_with = "no_parameters"
+    )]
     GetInfo,
     /// Get the description of the specified interface.
     #[serde(rename = "org.varlink.service.GetInterfaceDescription")]
@@ -23,6 +26,44 @@ pub enum Method<'a> {
         /// The interface to get the description for.
         interface: &'a str,
     },
+}
+
+/// Accepts the `parameters` of a method that takes none: absent, `null` or an empty object.
+fn no_parameters<'de, D>(deserializer: D) -> core::result::Result<(), D::Error>
+where
+    D: serde::Deserializer<'de>,
+{
+    struct NoParameters;
+
+    impl<'de> serde::de::Visitor<'de> for NoParameters {
+        type Value = ();
+
+        fn expecting(&self, formatter: &mut core::fmt::Formatter<'_>) -> core::fmt::Result {
+            formatter.write_str("no parameters")
+        }
+
+        fn visit_unit<E>(self) -> core::result::Result<(), E> {
+            Ok(())
+        }
+
+        fn visit_none<E>(self) -> core::result::Result<(), E> {
+            Ok(())
+        }
+
+        fn visit_map<A>(self, mut map: A) -> core::result::Result<(), A::Error>
+        where
+            A: serde::de::MapAccess<'de>,
+        {
+            match map.next_key::<serde::de::IgnoredAny>()? {
+                None => Ok(()),
+                Some(_) => Err(serde::de::Error::custom(
+                    "unexpected parameters for a method without parameters",
+                )),
+            }
+        }
+    }
+
+    deserializer.deserialize_any(NoParameters)
 }
 
 /// `org.varlink.service` interface replies.
